@@ -320,6 +320,9 @@ func (e *Encoder) applyContract(fr *frame, ct *Contract, args []*SVal, ci ssa.Ca
 	pre := e.cur
 	env := e.contractEnv(nil, ct, args, pre, pre)
 	cname := shortFn(callee)
+	if ct.Nocheck && callee.Pkg != nil && strings.HasPrefix(callee.Pkg.Pkg.Path(), modPath) {
+		e.trusted["the contract of "+callee.String()+" is assumed at its call sites, its body is not verified (contract file: trusted)"] = true
+	}
 	// implicit preconditions of every contract: pointer and interface parameters are non-nil
 	// (unless "option nilable:<param>"), and "option dyn:<param>=<type>" fixes a dynamic type
 	if e.pure == 0 {
@@ -451,13 +454,13 @@ func (e *Encoder) applyContract(fr *frame, ct *Contract, args []*SVal, ci ssa.Ca
 	if len(sub) > 0 {
 		// resolve chains (a := f(b), b := g) by iterating a few times
 		for i := 0; i < 4; i++ {
-			for k, v := range sub {
-				sub[k] = c.Subst(v, sub)
+			for _, k := range sortedTermKeys(sub) {
+				sub[k] = c.Subst(sub[k], sub)
 			}
 		}
 		res = e.substVal(res, sub)
-		for cl, t := range post.m {
-			post.m[cl] = c.Subst(t, sub)
+		for _, cl := range sortedStrKeys(post.m) {
+			post.m[cl] = c.Subst(post.m[cl], sub)
 		}
 	}
 	return res
@@ -1307,6 +1310,35 @@ func init() {
 			h := e.get(env.state(), cls+"#has", Arr(RefS, Arr(ks, BoolS)))
 			return env.mkBool(c.Select(c.Select(h, m.T), e.mapKeyTerm(e.coerce(k, mt.Key()), mt.Key())))
 		},
+		"mapLenSum": func(env *Env, n *ast.CallExpr, args []*SVal) *SVal {
+			// mapLenSum(m): the sum of the lengths of the slices stored in a map - an uninterpreted function
+			// of the map's key set and of the stored lengths, of which only this is known: it is not negative,
+			// and it is positive exactly when some entry is not empty. (Mathematical integers: the sum is
+			// assumed not to overflow an int.)
+			e := env.e
+			c := e.c
+			m := args[0]
+			mt, ok := m.Typ.Underlying().(*types.Map)
+			if !ok {
+				panic(contractError{fmt.Errorf("mapLenSum: not a map")})
+			}
+			if _, isSlice := mt.Elem().Underlying().(*types.Slice); !isSlice {
+				panic(contractError{fmt.Errorf("mapLenSum: the values of %s are not slices", mt)})
+			}
+			cls, ks, ok := e.mapClasses(mt)
+			if !ok {
+				panic(contractError{fmt.Errorf("mapLenSum: key type of %s is not modelled", mt)})
+			}
+			h := c.Select(e.get(env.state(), cls+"#has", Arr(RefS, Arr(ks, BoolS))), m.T)
+			l := c.Select(e.get(env.state(), cls+"#val#len", Arr(RefS, Arr(ks, BV64))), m.T)
+			sum := c.App("mapLenSum:"+cls, BV64, h, l)
+			k := c.Bound("mk", ks)
+			some := c.Exists([]*Term{k}, c.And(c.Select(h, k), c.BVCmp("bvsgt", c.Select(l, k), c.BVLit(0, 64))))
+			e.assumeFact(c.BVCmp("bvsge", sum, c.BVLit(0, 64)))
+			e.assumeFact(c.Eq(c.BVCmp("bvsgt", sum, c.BVLit(0, 64)), some))
+			e.trusted["mapLenSum(m) (sum of the lengths of a map's slices) is characterised only as: non-negative, and positive exactly when some entry is non-empty; the sum is assumed not to overflow"] = true
+			return &SVal{K: KScalar, Typ: types.Typ[types.Int], T: sum}
+		},
 		"metricvec": func(env *Env, n *ast.CallExpr, args []*SVal) *SVal {
 			// value of the child of a metric vector for a label (labels are identified by their string object)
 			e := env.e
@@ -1660,7 +1692,8 @@ func (w *World) implementers(it types.Type, m *types.Func) []types.Type {
 		return r
 	}
 	var out []types.Type
-	for path, p := range w.Pkgs {
+	for _, path := range sortedStrKeys(w.Pkgs) {
+		p := w.Pkgs[path]
 		if !strings.HasPrefix(path, modPath) || strings.Contains(path, "/cmd/") {
 			continue
 		}
@@ -2186,6 +2219,40 @@ func (e *Encoder) smallBound(n *Term, limit int) (int, bool) {
 	return 0, false
 }
 
+// callOrdinal: 1-based position of call ci among the calls of fn whose callee name contains pat,
+// in source order (0 if ci is not one of them).
+func callOrdinal(fn *ssa.Function, ci ssa.CallInstruction, pat string) int {
+	var ps []token.Pos
+	for _, b := range fn.Blocks {
+		for _, in := range b.Instrs {
+			c2, ok := in.(ssa.CallInstruction)
+			if !ok {
+				continue
+			}
+			cm := c2.Common()
+			name := ""
+			switch {
+			case cm.IsInvoke():
+				name = ifaceMethodKey(cm.Value.Type(), cm.Method)
+			case cm.StaticCallee() != nil:
+				name = cm.StaticCallee().String()
+			default:
+				name = "dynamic:" + cm.Value.Type().String()
+			}
+			if strings.Contains(name, pat) {
+				ps = append(ps, c2.Pos())
+			}
+		}
+	}
+	sort.Slice(ps, func(i, j int) bool { return ps[i] < ps[j] })
+	for i, p := range ps {
+		if p == ci.Pos() {
+			return i + 1
+		}
+	}
+	return 0
+}
+
 // atCall evaluates the contract's "at <callee> assert" clauses at a matching call.
 func (e *Encoder) atCall(fr *frame, cm *ssa.CallCommon, ci ssa.CallInstruction, args []*SVal) {
 	name := ""
@@ -2199,6 +2266,9 @@ func (e *Encoder) atCall(fr *frame, cm *ssa.CallCommon, ci ssa.CallInstruction, 
 	}
 	for _, cl := range e.contract.AtCalls {
 		if !strings.Contains(name, cl.Callee) {
+			continue
+		}
+		if cl.Ordinal > 0 && callOrdinal(fr.fn, ci, cl.Callee) != cl.Ordinal {
 			continue
 		}
 		if cl.Slow && !thoroughTier {
@@ -2483,7 +2553,8 @@ func (w *World) funcTypedImplementers(it types.Type) []types.Type {
 		return nil
 	}
 	var out []types.Type
-	for path, p := range w.Pkgs {
+	for _, path := range sortedStrKeys(w.Pkgs) {
+		p := w.Pkgs[path]
 		if !strings.HasPrefix(path, modPath) {
 			continue
 		}
